@@ -7,7 +7,9 @@ open Wire Model.Merge
 requests:   <op> <mode> <shape>
   op     merge | quarters | rows | ref | dangling | tails | load (= load_score_as_part: merge with mode voice; the mode token is ignored)
   mode   voice | staff | auto | anything else (rejected like the ValueError of the code)
-  shape  one <tree> | many <n> <tree>*
+  shape  one <tree> | many <n> <tree>*            (a part / group, a list or tuple of parts and groups)
+         | score <one .. | many ..> <nops> <op>*   (the object Score(shape) after a history of edits of its parts)
+  op     setitem <i> P.. | assign <n> (P..)* | append P.. | pop <i> | reverse
   tree   P <pid> <nqd> <qd>* <nelems> <elem>* <ntails> <elem>*  |  G <n> <tree>*
          (tails: the objects that only have an end; their <start> is 0 and not used)
   elem   <oid> <className> <start> <end|-> <voice|-> <staff|-> <pitch|-> <tiePrev 0|1> <nchain> <oid>* <nrefs> <oid>*
@@ -38,15 +40,23 @@ def pElem : P Elem := do
            pitch := pi, tiePrev := tp, chain := ch, refs := rf }
   else P.fail
 
+def pPartBody : P APart := do
+  let pid ← nat
+  let qds ← list nat
+  let es ← list pElem
+  let tl ← list pElem
+  pure { pid := pid, divs := divsOf qds, elems := es, tails := tl }
+
+def pPart : P APart := do
+  let t ← tok
+  if t == "P" then pPartBody else P.fail
+
 partial def pTree : P Tree := do
   let t ← tok
   match t with
   | "P" =>
-    let pid ← nat
-    let qds ← list nat
-    let es ← list pElem
-    let tl ← list pElem
-    pure (.part { pid := pid, divs := divsOf qds, elems := es, tails := tl })
+    let p ← pPartBody
+    pure (.part p)
   | "G" =>
     let cs ← list pTree
     pure (.group cs)
@@ -57,6 +67,24 @@ def pShape : P Shape := do
   match t with
   | "one" => do let x ← pTree; pure (.one x)
   | "many" => do let xs ← list pTree; pure (.many xs)
+  | _ => P.fail
+
+def pOp : P ScoreOp := do
+  let t ← tok
+  match t with
+  | "setitem" => do let i ← nat; let p ← pPart; pure (.setItem i p)
+  | "assign" => do let ps ← list pPart; pure (.assign ps)
+  | "append" => do let p ← pPart; pure (.append p)
+  | "pop" => do let i ← nat; pure (.pop i)
+  | "reverse" => pure .reverse
+  | _ => P.fail
+
+def pArg : P Arg := do
+  let t ← tok
+  match t with
+  | "one" => do let x ← pTree; pure (.plain (.one x))
+  | "many" => do let xs ← list pTree; pure (.plain (.many xs))
+  | "score" => do let s ← pShape; let ops ← list pOp; pure (.score s ops)
   | _ => P.fail
 
 def fmtElem (e : Elem) : String :=
@@ -95,26 +123,33 @@ def fmtResult : Option Result → String
 def handle (ts : List String) : String :=
   match ts with
   | op :: mode :: rest =>
-    match run pShape rest with
+    match run pArg rest with
     | none => "bad-request"
-    | some sh =>
+    | some a =>
+      match argParts a with
+      | none => "bad-history"
+      | some parts =>
       match op with
-      | "ref" => fmtList fmtSound ((refSound (iterParts sh)).mergeSort soundLe)
+      | "ref" => fmtList fmtSound ((refSound parts).mergeSort soundLe)
+      | "parts" => fmtList (fun p => fmtNat p.pid) parts
       | "tails" =>
         match parseMode mode with
         | none => "err"
         | some m =>
-          match merge m sh with
+          match mergeArg m a with
           | some (.merged _ _) =>
-            fmtList fmtTail ((mergedTails m (iterParts sh)).mergeSort fun a b => a.oid ≤ b.oid)
+            fmtList fmtTail ((mergedTails m parts).mergeSort fun a b => a.oid ≤ b.oid)
           | some (.same _) => "same"
           | none => "err"
-      | "load" => fmtResult (loadScoreAsPart sh)
+      | "load" =>
+        match a with
+        | .plain sh => fmtResult (loadScoreAsPart sh)
+        | _ => "bad-request"
       | _ =>
         match parseMode mode with
         | none => "err"
         | some m =>
-          match merge m sh with
+          match mergeArg m a with
           | none => "err"
           | some r =>
             match op with
@@ -129,7 +164,7 @@ def handle (ts : List String) : String :=
               | .same _ => "same"
               | .merged _ es =>
                 fmtList (fun x => fmtTuple [fmtNat x.1, fmtNat x.2])
-                  ((dangling (es ++ mergedTails m (iterParts sh))).mergeSort fun a b =>
+                  ((dangling (es ++ mergedTails m parts)).mergeSort fun a b =>
                     a.1 < b.1 || (a.1 == b.1 && a.2 ≤ b.2))
             | _ => "bad-request"
   | _ => "bad-request"
